@@ -10,7 +10,6 @@ import (
 	"go/parser"
 	"go/printer"
 	"go/token"
-	"os"
 	"path/filepath"
 	"regexp"
 	"sort"
@@ -19,17 +18,22 @@ import (
 )
 
 var fset = token.NewFileSet()
-var parseErrors []string
+var parseErrors = map[string]bool{}
+var parsed = map[string]*ast.File{}
 
-// parseGo parses one file; on syntax errors it keeps the partial tree.
+// parseGo parses one file (once); on syntax errors it keeps the partial tree.
 func parseGo(path string) *ast.File {
+	if f, ok := parsed[path]; ok {
+		return f
+	}
 	f, err := parser.ParseFile(fset, path, nil, parser.SkipObjectResolution)
 	if err != nil {
-		parseErrors = append(parseErrors, filepath.Base(filepath.Dir(path))+"/"+filepath.Base(path))
+		parseErrors[filepath.Base(filepath.Dir(path))+"/"+filepath.Base(path)] = true
 	}
 	if f == nil {
 		f = &ast.File{Name: ast.NewIdent("unknown")}
 	}
+	parsed[path] = f
 	return f
 }
 
@@ -44,7 +48,7 @@ func parseDir(dir string) []*ast.File {
 		}
 	}
 	if len(files) == 0 {
-		parseErrors = append(parseErrors, "empty:"+filepath.Base(dir))
+		parseErrors["empty:"+filepath.Base(dir)] = true
 	}
 	return files
 }
@@ -346,7 +350,7 @@ var reErrSel = regexp.MustCompile(`^\w+\.Err\w+$`)
 // profile lists, for one function body, the ordered events (SQL constant
 // references and resolved same-package calls, a call after its arguments),
 // the error sentinel tests and the strings.Replace / += / ExpandIn rewrites.
-func (p *pkgInfo) profile(fd *ast.FuncDecl) (evs []event, errs []string, rewrites [][5]string) {
+func (p *pkgInfo) profile(fd *ast.FuncDecl, root ast.Node) (evs []event, errs []string, rewrites [][5]string) {
 	env := p.envOf(fd)
 	resolveStr := func(e ast.Expr) string {
 		if lit, ok := e.(*ast.BasicLit); ok && lit.Kind == token.STRING {
@@ -362,7 +366,7 @@ func (p *pkgInfo) profile(fd *ast.FuncDecl) (evs []event, errs []string, rewrite
 		return "expr:" + src(e)
 	}
 	var stack []ast.Node
-	ast.Inspect(fd.Body, func(n ast.Node) bool {
+	ast.Inspect(root, func(n ast.Node) bool {
 		if n == nil {
 			top := stack[len(stack)-1]
 			stack = stack[:len(stack)-1]
@@ -454,7 +458,7 @@ func extractPkg(out *Facts, dir string) {
 	sort.Strings(keys)
 	for _, k := range keys {
 		fd := p.funcs[k]
-		evs, errs, rw := p.profile(fd)
+		evs, errs, rw := p.profile(fd, fd.Body)
 		events[k] = evs
 		out.Replaces = append(out.Replaces, rw...)
 		f := TxFact{Refs: []string{}, Calls: []string{}, Stmts: []string{}, Errs: orEmpty(errs)}
@@ -499,7 +503,14 @@ func extractPkg(out *Facts, dir string) {
 				}
 			}
 			name := p.name + "." + strings.TrimPrefix(k, "DB.")
-			out.Wrappers[name] = Wrap{Kind: wrapKind(src(scope)), Calls: f.Calls}
+			w := Wrap{Kind: wrapKind(src(scope)), Calls: []string{}}
+			evs, _, _ := p.profile(fd, scope)
+			for _, e := range evs {
+				if e.call {
+					w.Calls = append(w.Calls, e.name)
+				}
+			}
+			out.Wrappers[name] = w
 		}
 		// Function facts are kept for everything that is not a DB wrapper and is
 		// either a Tx method, unexported, or touches SQL / errors / package code.
@@ -508,8 +519,5 @@ func extractPkg(out *Facts, dir string) {
 		} else {
 			out.Facts[p.name+"."+k] = f
 		}
-	}
-	if _, err := os.Stat(dir); err != nil {
-		out.Consts["pkg_"+p.name] = "unknown:package directory missing"
 	}
 }
